@@ -43,7 +43,9 @@ CHECKS = {
                       {"name": "engine-parity", "pkg": "pkg/verifflow", "harness": "flow", "run": "^TestVerifC07EngineParity$", "instrument": True, "shards": 16, "shards_thorough": 16, "gomaxprocs": 1}]},
     "C12": {"parts": [FLOW, preempt(V1_POINTS + V2_POINTS + ["pkg/lifecycle/stream/source.go", "pkg/lifecycle/stream/base.go", "pkg/lifecycle-poc/funnel/worker.go"])]},
     "C10": {"parts": [FLOW, preempt(["pkg/lifecycle/service.go", "pkg/lifecycle-poc/service.go"])]},
-    "C11": {"parts": [FLOW, preempt(["pkg/lifecycle/service.go", "pkg/lifecycle-poc/service.go"])]},
+    "C11": {"parts": [FLOW, preempt(["pkg/lifecycle/service.go", "pkg/lifecycle-poc/service.go"]),
+                      # the reservation a start takes on each processor: every operation history <=5 on the real processor.Service
+                      {"name": "processor-reservation", "pkg": "pkg/processor", "harness": "c11resv", "run": "^TestVerifC11Reservation$", "shards": 8, "shards_thorough": 16}]},
     "C13": {"parts": [FLOW, preempt(["pkg/lifecycle/stream/processor.go"])]},
     "C16": {"parts": [FLOW, preempt(["pkg/provisioning/lock.go", "pkg/provisioning/plan.go"]),
                       # the per-pipeline apply lock on its own: every arrival/leave order of 2-5 callers + one preemption at every statement
